@@ -12,7 +12,8 @@ pub const MAX_NODES: usize = 96;
 pub struct Table {
     /// node k's definition; references are node indices
     pub specs: Vec<Type<PortableForm>>,
-    /// index of the node that stands for the real `PhantomData<_>` identity, if any
+    /// index of the node that stands for a real std identity, if any: `PhantomData<_>`, `()`, `str` or `u8`
+    /// (which one is read off its spec, see `real_kind`)
     pub phantom: Option<usize>,
     /// how often node k's `type_info()` was evaluated
     pub evals: Vec<u32>,
@@ -94,13 +95,40 @@ fn build(n: usize) -> Type {
 
 /// the spec of the real `PhantomData<_>` type info (so the model sees what the code sees)
 pub fn phantom_spec() -> Type<PortableForm> {
-    let t = <PhantomData<u8> as TypeInfo>::type_info();
+    real_spec(0)
+}
+/// the spec of a real reference-free std type: 0 `PhantomData<_>`, 1 `()`, 2 `str`, 3 `u8`
+pub fn real_spec(kind: usize) -> Type<PortableForm> {
+    let t = match kind {
+        0 => <PhantomData<u8> as TypeInfo>::type_info(),
+        1 => <() as TypeInfo>::type_info(),
+        2 => <str as TypeInfo>::type_info(),
+        _ => <u8 as TypeInfo>::type_info(),
+    };
+    let def: TypeDef<PortableForm> = match &t.type_def {
+        TypeDef::Composite(c) if c.fields.is_empty() => TypeDefComposite::new(Vec::<Field<PortableForm>>::new()).into(),
+        TypeDef::Tuple(tu) if tu.fields.is_empty() => {
+            TypeDefTuple::new_portable(Vec::<<PortableForm as scale_info::form::Form>::Type>::new()).into()
+        }
+        TypeDef::Primitive(p) => p.clone().into(),
+        _ => panic!("real_spec: not a reference-free definition"),
+    };
+    assert!(t.type_params.is_empty() || kind == 0);
     Type::new(
         Path::from_segments_unchecked(t.path.segments.iter().map(|s| s.to_string())),
         Vec::new(),
-        TypeDefComposite::new(Vec::<Field<PortableForm>>::new()),
+        def,
         t.docs.iter().map(|s| s.to_string()).collect(),
     )
+}
+/// which real type a spec at the special index stands for
+fn real_kind(t: &Type<PortableForm>) -> usize {
+    match &t.type_def {
+        TypeDef::Tuple(_) => 1,
+        TypeDef::Primitive(scale_info::TypeDefPrimitive::Str) => 2,
+        TypeDef::Primitive(_) => 3,
+        _ => 0,
+    }
 }
 
 macro_rules! metas {
@@ -121,15 +149,26 @@ metas!(0 1 2 3 4 5 6 7 8 9 10 11 12 13 14 15 16 17 18 19 20 21 22 23 24 25 26 27
 
 pub fn meta_with(k: usize, alias: usize, phantom: Option<usize>) -> MetaType {
     if Some(k) == phantom {
-        // every PhantomData<_> shares one identity; alternate instantiations
-        return match alias {
-            0 => MetaType::new::<PhantomData<u8>>(),
-            1 => MetaType::new::<PhantomData<()>>(),
-            _ => MetaType::new::<PhantomData<Node<3>>>(),
+        let kind = *REAL_KIND.lock().unwrap();
+        // several Rust types declare each of these identities; alternate between them
+        return match (kind, alias) {
+            (0, 0) => MetaType::new::<PhantomData<u8>>(),
+            (0, 1) => MetaType::new::<PhantomData<()>>(),
+            (0, _) => MetaType::new::<PhantomData<Node<3>>>(),
+            (1, 0) => MetaType::new::<()>(),
+            (1, 1) => MetaType::new::<Box<()>>(),
+            (1, _) => MetaType::new::<&'static ()>(),
+            (2, 0) => MetaType::new::<str>(),
+            (2, 1) => MetaType::new::<String>(),
+            (2, _) => MetaType::new::<Box<String>>(),
+            (_, 0) => MetaType::new::<u8>(),
+            (_, 1) => MetaType::new::<std::sync::Arc<u8>>(),
+            (_, _) => MetaType::new::<&'static mut u8>(),
         };
     }
     meta_node(k, alias)
 }
+static REAL_KIND: Mutex<usize> = Mutex::new(0);
 pub fn meta(k: usize, alias: usize) -> MetaType {
     let ph = TABLE.lock().unwrap().phantom;
     meta_with(k, alias, ph)
@@ -137,6 +176,9 @@ pub fn meta(k: usize, alias: usize) -> MetaType {
 pub fn load(specs: Vec<Type<PortableForm>>, phantom: Option<usize>) {
     let mut tb = TABLE.lock().unwrap();
     tb.evals = vec![0; specs.len()];
+    if let Some(k) = phantom {
+        *REAL_KIND.lock().unwrap() = real_kind(&specs[k]);
+    }
     tb.specs = specs;
     tb.phantom = phantom;
 }
